@@ -393,7 +393,7 @@ pub fn run(args: &Args) -> Option<i32> {
     mon.assume("'without touching any market' is judged on pools, clocks, recorded balances, trade count and funding factor; the buffer revision counter (bumped by no-op commits) is excluded");
     mon.assume("all ATAs exist when an action is closed (the 'ATA not initialised: skip close' path is counted, not judged)");
     let shards = args.scale(32, 256);
-    let steps = args.scale(350, 900);
+    let steps = args.scale(520, 900);
     let quiet = hostsvm::QuietStdout::new();
     run_shards(&mut mon, args.threads, shards, |shard, m| {
         let mut sim = Sim::new(args.seed, shard);
